@@ -19,11 +19,17 @@ HERE = os.path.dirname(os.path.abspath(__file__))
 def plan_calls(rng, ver, n):
     calls = []
     for _ in range(n):
-        k = rng.choice(["get", "get", "get_many", "getnext", "getbulk", "fetch", "refresh"])
+        k = rng.choice(["get", "get", "get_many", "getnext", "getbulk", "fetch", "refresh", "toolarge", "deadsend"])
         if ver == "v1" and k == "getbulk":
             k = "getnext"
         arcs = gen.rarcs(rng, 6)
-        if k == "get":
+        if k == "toolarge":
+            # does not fit the buffer: must raise SnmpEncodeError, send nothing, and leave no trace in the pooled buffers
+            calls.append({"op": "toolarge", "oids": [gen.rarcs(rng, 8) for _ in range(400)]})
+        elif k == "deadsend":
+            # a send() that fails in the kernel (connected UDP socket to a closed port: the second send reports ECONNREFUSED)
+            calls.append({"op": "deadsend", "oids": [arcs]})
+        elif k == "get":
             calls.append({"op": "get", "oids": [arcs]})
         elif k == "get_many":
             calls.append({"op": "get_many", "oids": [gen.rarcs(rng, 6) for _ in range(rng.choice([0, 1, 2, 5, 30]))]})
@@ -151,6 +157,17 @@ def api_main(g, job):
         st["stamp"] = (0, 0)
         st["stamp_seq"] = []
         st["sess"] = scen.Session(g, sc, st["agent"], model)
+        # a second session of the same configuration whose peer port is closed (nothing listens there)
+        import socket as _socket
+        tmp = _socket.socket(_socket.AF_INET, _socket.SOCK_DGRAM)
+        tmp.bind(("127.0.0.1", 0))
+        dead_port = tmp.getsockname()[1]
+        tmp.close()
+
+        class _P:
+            port = dead_port
+        dsc = dict(sc, timeout=0.02, mode="sync")
+        st["dead"] = scen.Session(g, dsc, _P(), model).sess
         if st["sess"].create_error:
             errors.append("session %d could not be created: %s" % (i, st["sess"].create_error))
         sessions.append(st)
@@ -168,6 +185,27 @@ def api_main(g, job):
         oid_txt = [ber.oid_text(a) for a in call["oids"]]
         filler = ber.varbind(ber.enc_oid([1, 3, 6, 1, 4, 1]), ber.enc_value("os", bytes(rng.choice([0, 10, 200, 900]))))
         expected = []        # list of (pdu type, oids, f1, f2)
+        if op == "deadsend":
+            # two sends on a throw-away session of the same kind whose peer port is closed; whatever they raise is not judged
+            for _x in range(3):
+                apilib.call(st["dead"].get, oid_txt[0])
+            st["history"].append("deadsend")
+            continue
+        if op == "toolarge":
+            st["script"] = []
+            st["last_reqs"] = []
+            out = st["sess"].op("get_many", [oid_txt], 5)
+            st["agent"].take()
+            bad = []
+            if st["last_reqs"]:
+                bad.append("sent-on-error: %d datagram(s) emitted for a request that does not fit the buffer" % len(st["last_reqs"]))
+            if out.get("exc") != "SnmpEncodeError":
+                bad.append("oversize-outcome: %s instead of SnmpEncodeError" % (out.get("exc") or out.get("value")))
+            if bad:
+                emitted.append({"session": i, "config": ver, "config_full": cf_view(cf), "call": "get_many(400 OIDs)", "call_full": {"op": "toolarge"},
+                                "datagram": "", "history": st["history"][-5:], "model_line": None, "oracle": bad})
+            st["history"].append("toolarge")
+            continue
         if op == "get":
             st["script"] = [{"vbs": filler.hex()}]
             args = [oid_txt[0]]
